@@ -217,6 +217,32 @@ def transforms():
                                       make=re_wrap(lambda p: jft.invgamma_prior(p["a"], p["scale"], p["loc"]),
                                                    lambda p: sd.invgamma_invprior(p["a"], p["scale"], p["loc"])),
                                       ref=lambda p, x: ref_quantile(st.invgamma, x, a=p["a"], scale=p["scale"], loc=p["loc"]))
+    # the public model classes of nifty/re/prior.py, every parameter non-default (name, shape, loc, step)
+    def cls_wrap(mk, iv=None):
+        def make(p, n):
+            import jax.numpy as jnp
+            model = mk(p, n)
+            g = iv(p) if iv is not None else None
+            return (lambda x: np.asarray(model({"k": jnp.asarray(np.asarray(x, dtype=float))}))), \
+                   ((lambda y: np.asarray(g(np.asarray(y, dtype=float)))) if g is not None else None)
+        return make
+    T["re.NormalPrior"] = dict(api="re", sample=ms, tab=False, rtol=1e-9, atol=lambda p: 1e-9 * p["std"],
+                               make=cls_wrap(lambda p, n: jft.NormalPrior(p["mean"], p["std"], name="k", shape=(n,)),
+                                             lambda p: jft.normal_invprior(p["mean"], p["std"])),
+                               ref=lambda p, x: ref_quantile(st.norm, x, loc=p["mean"], scale=p["std"]))
+    T["re.LogNormalPrior"] = dict(api="re", sample=pms, tab=False, rtol=1e-8, atol=lambda p: 0.0,
+                                  make=cls_wrap(lambda p, n: jft.LogNormalPrior(p["mean"], p["std"], name="k", shape=(n,)),
+                                                lambda p: jft.lognormal_invprior(p["mean"], p["std"])), ref=ln_ref)
+    T["re.UniformPrior"] = dict(api="re", sample=ab, tab=False, rtol=1e-9, atol=lambda p: 1e-9 * (p["a_max"] - p["a_min"]),
+                                make=cls_wrap(lambda p, n: jft.UniformPrior(p["a_min"], p["a_max"], name="k", shape=(n,))),
+                                ref=lambda p, x: ref_quantile(st.uniform, x, loc=p["a_min"], scale=p["a_max"] - p["a_min"]))
+    T["re.LaplacePrior"] = dict(api="re", sample=al, tab=False, rtol=1e-9, atol=lambda p: 1e-9 * p["alpha"],
+                                make=cls_wrap(lambda p, n: jft.LaplacePrior(p["alpha"], name="k", shape=(n,))),
+                                ref=lambda p, x: ref_quantile(st.laplace, x, scale=p["alpha"]))
+    T["re.InvGammaPrior"] = dict(api="re", sample=igl, tab=True, rtol=2e-4, atol=lambda p: 2e-4 * abs(p["loc"]),
+                                 make=cls_wrap(lambda p, n: jft.InvGammaPrior(p["a"], p["scale"], loc=p["loc"], step=5e-3, name="k", shape=(n,)),
+                                               lambda p: sd.invgamma_invprior(p["a"], p["scale"], p["loc"], step=5e-3)),
+                                 ref=lambda p, x: ref_quantile(st.invgamma, x, a=p["a"], scale=p["scale"], loc=p["loc"]))
     # classic
     T["cl.NormalTransform"] = dict(api="cl", sample=ms, tab=False, rtol=1e-9, atol=lambda p: 1e-9 * p["std"],
                                    make=cl_keyed(lambda p, n: nop.NormalTransform(p["mean"], p["std"], "k", n)),
@@ -284,6 +310,17 @@ def transforms():
                                     ref=lambda p, x: ref_quantile(st.gamma, x, a=p["mean"] ** 2 / p["var"], scale=p["var"] / p["mean"]))
     T["cl.GammaOperator"]["attrs"] = g_attrs
     T["cl.GammaOperator_mv"]["attrs"] = g_mv_attrs
+    # remaining documented parametrisations: GammaOperator(alpha, beta = 1/theta); Field-valued q / theta
+    ab_ = lambda r: {"alpha": logu(r, 0.5, 20.), "beta": logu(r, 1e-2, 1e2)}
+    T["cl.GammaOperator_beta"] = dict(api="cl", sample=ab_, tab=True, rtol=1e-6, atol=lambda p: 1e-9 / p["beta"],
+                                      make=cl_wrap(lambda d, p: spd.GammaOperator(d, alpha=p["alpha"], beta=p["beta"])),
+                                      ref=lambda p, x: ref_quantile(st.gamma, x, a=p["alpha"], scale=1 / p["beta"]))
+    T["cl.GammaOperator_thetafield"] = dict(api="cl", sample=at, tab=True, rtol=1e-6, atol=lambda p: 1e-9 * p["theta"],
+                                            make=cl_wrap(lambda d, p: spd.GammaOperator(d, alpha=p["alpha"], theta=ift.full(d, p["theta"]))),
+                                            ref=lambda p, x: ref_quantile(st.gamma, x, a=p["alpha"], scale=p["theta"]))
+    T["cl.InverseGammaOperator_qfield"] = dict(api="cl", sample=aq, tab=True, rtol=1e-6, atol=lambda p: 0.0,
+                                               make=cl_wrap(lambda d, p: spd.InverseGammaOperator(d, alpha=p["alpha"], q=ift.full(d, p["q"]), delta=5e-3)),
+                                               ref=lambda p, x: ref_quantile(st.invgamma, x, a=p["alpha"], scale=p["q"]))
     be = lambda r: {"a": logu(r, 0.5, 10.), "b": logu(r, 0.5, 10.)}
     T["cl.BetaOperator"] = dict(api="cl", sample=be, tab=True, rtol=1e-7, atol=lambda p: 1e-9,
                                 make=cl_wrap(lambda d, p: spd.BetaOperator(d, p["a"], p["b"])),
